@@ -54,6 +54,14 @@ def generate(rng, tier):
                   'gb.w 0 65295 0', 'gb.cyc 0 %d' % rng.randrange(2, 40), 'gb.obs 0', 'gb.w 0 65295 0', 'gb.frames 0 1', 'gb.obs 0', 'gb.r 0 65295']
         cases.append(('fr%d' % n, lines))
         n += 1
+    # the CPU acts first in every cycle: a loop of 9 machine cycles (co-prime with DIV's 64) adds up every DIV value it reads
+    for rep in range(2 if tier == 'quick' else 8):
+        lines = ['gb.newloop 0 0 0 0']
+        for i, b in enumerate([0xf0, 0x04, 0x80, 0x47, 0x00, 0x18, 0xf9]):     # LDH A,(04); ADD B; LD B,A; NOP; JR -7
+            lines.append('gb.w 0 %d %d' % (0xc000 + i, b))
+        lines += ['gb.set 0 1 2 3 4 5 0 6 7 57343 49152', 'gb.cyc 0 %d' % rng.randrange(1, 64), 'gb.obs 0', 'gb.frames 0 1', 'gb.obs 0', 'gb.cyc 0 %d' % rng.randrange(100, 2000), 'gb.obs 0']
+        cases.append(('fr%d' % n, lines))
+        n += 1
     from props import sysgen as _sg
     for rep in range(2 if tier == 'quick' else 12):
         cases.append(('fr%d' % n, _sg.key_case(rng, [0x10, 0x00, 0x3c, 0x18, 0xfd], n_events=4) + ['gb.frames 0 1', 'gb.obs 0']))
